@@ -377,8 +377,9 @@ impl<S: Sc> T<S> {
         od.push(cols);
         if let Some(c) = c {
             if c.v.len() != 1 {
+                // the term is broadcast over rows and batches only: its last dimension is the column count, and it
                 // must broadcast (right aligned) to the output dimensions
-                if c.dims.len() > od.len() {
+                if c.dims.len() > od.len() || *c.dims.last().unwrap() != cols {
                     return None;
                 }
                 let off = od.len() - c.dims.len();
